@@ -51,8 +51,8 @@ def arr_obs(o):
         return ("bv", {k: np.asarray(v) for k, v in o.blocks.items()})
     if isinstance(o, (tuple, list)):
         return ("tuple", tuple(arr_obs(p) for p in o))
-    if isinstance(o, np.ndarray):
-        return ("nd", o)
+    if isinstance(o, (np.ndarray, np.generic)):
+        return ("nd", np.asarray(o))
     if isinstance(o, dict):
         return ("dict", {k: np.asarray(v) for k, v in o.items()})
     return ("py", o)
@@ -73,6 +73,8 @@ def obs_equal(a, b, tol=0.0):
     x, y = a[1], b[1]
     try:
         if tol and isinstance(x, (float, complex, np.floating, np.complexfloating)):
+            if x != x and y != y:
+                return True
             return bool(abs(x - y) <= tol * max(1.0, abs(x)))
         return bool(x == y) or (x != x and y != y)
     except Exception:
